@@ -35,20 +35,20 @@ fn run_lms(t: &mut Tape, tier: Tier, out: &mut RunOut) {
     let set = t.usize(4);
     let cfg = lms::Cfg { thorough: tier == Tier::Thorough };
     match set {
-        0 => lms::run::<lms::Sha256M32>(t, &cfg, out),
-        1 => lms::run::<lms::Sha256M24>(t, &cfg, out),
-        2 => lms::run::<lms::ShakeM32>(t, &cfg, out),
-        _ => lms::run::<lms::ShakeM24>(t, &cfg, out),
+        0 => lms::run::<lms::Sha256M32, lms::ShakeM32>(t, &cfg, out),
+        1 => lms::run::<lms::Sha256M24, lms::ShakeM24>(t, &cfg, out),
+        2 => lms::run::<lms::ShakeM32, lms::Sha256M24>(t, &cfg, out),
+        _ => lms::run::<lms::ShakeM24, lms::Sha256M32>(t, &cfg, out),
     }
 }
 
 pub fn registry() -> Vec<Engine> {
     vec![
-        Engine { name: "hash", run: run_hash, hang_allowance_s: 60 },
-        Engine { name: "frost", run: run_frost, hang_allowance_s: 300 },
-        Engine { name: "lms", run: run_lms, hang_allowance_s: 300 },
-        Engine { name: "exchange", run: exchange::run, hang_allowance_s: 300 },
-        Engine { name: "apitrace", run: apitrace::run, hang_allowance_s: 300 },
+        Engine { name: "hash", run: run_hash, hang_allowance_s: 20 },
+        Engine { name: "frost", run: run_frost, hang_allowance_s: 60 },
+        Engine { name: "lms", run: run_lms, hang_allowance_s: 90 },
+        Engine { name: "exchange", run: exchange::run, hang_allowance_s: 40 },
+        Engine { name: "apitrace", run: apitrace::run, hang_allowance_s: 20 },
     ]
 }
 
